@@ -38,39 +38,13 @@ Proof.
   apply guard_ok in H2 as [-> _]. reflexivity.
 Qed.
 
-(* ---------------------------------------------------------------- TopologyException only before mutation *)
-Lemma never_topo_ask {A} (q : graph -> res A) : (forall g e, q g = Err e -> e = EQuery) -> never_topo (ask q).
-Proof.
-  intros Hq s s' H. unfold ask in H. destruct (q (sg s)) eqn:E; inversion H; subst.
-  apply Hq in E. discriminate.
-Qed.
+Lemma bind_err_cases {A B} (m : M A) (k : A -> M B) s s' e :
+  bind m k s = (s', Err e) ->
+  m s = (s', Err e) \/ exists s1 a, m s = (s1, Ok a) /\ k a s1 = (s', Err e).
+Proof. unfold bind. destruct (m s) as [s1 [a|e1]]; intro H; [right; eauto|left; inversion H; reflexivity]. Qed.
 
-Lemma node_type_err g x e : node_type g x = Err e -> e = EQuery.
-Proof. unfold node_type. destruct (find_node g x) eqn:E; intro H; inversion H; subst. eapply find_node_err; eauto. Qed.
-
-Lemma connect_topo_atomic fl ns i : topo_atomic (connect_interface fl ns i).
-Proof.
-  unfold connect_interface.
-  apply topo_atomic_bind_nm; [nm|intro owner].
-  destruct owner as [on|]; [|apply topo_atomic_of_no_mut; nm].
-  apply topo_atomic_bind_nm; [nm|intro oname]. apply topo_atomic_bind_nm; [nm|intro peers].
-  apply topo_atomic_bind_nm; [nm|intro].
-  destruct fl.
-  - (* Experiment: ids are drawn, nothing raises TopologyException any more *)
-    apply topo_atomic_of_never. unfold new_interface, new_link. simpl.
-    repeat first [ apply never_topo_bind; [|intro] | apply never_topo_ret | apply never_topo_draw
-                 | apply never_topo_add_node | apply never_topo_add_edge
-                 | (apply never_topo_guard; discriminate)
-                 | (apply never_topo_ask; intros; eapply node_type_err; eauto) ].
-  - (* Substrate: the ServicePort has no caller-supplied id, the Interface constructor refuses at once *)
-    intros s s' H. unfold bind, new_interface, guard, raise in H. simpl in H. inversion H. reflexivity.
-Qed.
-
-Lemma step_topo_atomic fl ns ty i : topo_atomic (guardrails ty i ;;; connect_interface fl ns i).
-Proof.
-  apply topo_atomic_bind_nm; [|intro; apply connect_topo_atomic].
-  unfold guardrails. destruct (ty =? tL2PTP); nm.
-Qed.
+Lemma no_mut_guardrails ty i : no_mut (guardrails ty i).
+Proof. unfold guardrails. destruct (ty =? tL2PTP); nm. Qed.
 
 (* ---------------------------------------------------------------- a successful connect extends the shape *)
 Definition iface_typed (g : graph) (i : iface_h) : Prop :=
@@ -99,6 +73,8 @@ Proof.
   assert (HclE : closed E) by (apply ext_closed; auto).
   assert (HndE : NoDup (ids E)) by (unfold E; rewrite ids_ext; apply (gd_nodup _ _ _ G)).
   unfold connect_interface in H.
+  apply bind_ok in H as (s' & nsty & H1 & H). apply ask_ok in H1 as [-> _].
+  apply bind_ok in H as (s' & ug & H1 & H). apply guardrails_ok in H1 as ->.
   apply bind_ok in H as (s' & owner & H1 & H). apply ask_ok in H1 as [-> Hown].
   destruct owner as [on|]; [|discriminate].
   apply bind_ok in H as (s' & oname & H1 & H). apply ask_ok in H1 as [-> Honame].
@@ -130,6 +106,8 @@ Proof.
   apply bind_ok in Hl as (s' & l' & H1 & Hl). apply draw_ok in H1 as (r2 & Hr2 & ->). simpl in Hr2.
   apply bind_ok in Hl as (s' & u7 & H1 & Hl). apply guard_ok in H1 as [-> _].
   apply bind_ok in Hl as (s' & u8 & H1 & Hl). apply ret_ok in H1 as [-> _].
+  apply bind_ok in Hl as (s' & upc & H1 & Hl).
+  apply (precheck_ok [i; mkIface p' pname]) in H1 as [-> _].
   apply bind_ok in Hl as (s' & u9 & H1 & Hl). apply mutate_ok in H1 as (E3 & HE3 & ->). simpl in HE3.
   apply add_node_result in HE3 as [Hlnew ->]. simpl nid in Hlnew. simpl sfresh in *.
   apply bind_ok in Hl as (s' & u10 & H1 & Hl). apply ret_ok in Hl as [<- _].
@@ -197,4 +175,94 @@ Proof.
     + rewrite Hr1. left; reflexivity.
     + rewrite Hr1. right. rewrite Hr2. left; reflexivity.
   - intros x Hx. apply Hfr. rewrite Hr1. right. rewrite Hr2. right. exact Hx.
+Qed.
+
+(* ---------------------------------------------------------------- shape of a new port under an existing parent *)
+Lemma opt_raise_ok o s s1 u : opt_raise o s = (s1, Ok u) -> s1 = s.
+Proof. destruct o; simpl; unfold raise, ret; intro H; inversion H; reflexivity. Qed.
+
+Lemma id_or_draw_ok o s s1 x : id_or_draw o s = (s1, Ok x) ->
+  sg s1 = sg s /\ incl (sfresh s1) (sfresh s) /\ (o = Some x \/ In x (sfresh s)).
+Proof.
+  destruct o as [y|]; simpl.
+  - unfold ret. intro H; inversion H; subst. split; auto. split; [apply incl_refl|left; reflexivity].
+  - intro H. apply draw_ok in H as (r & Hr & ->). simpl. rewrite Hr. split; auto.
+    split; [intros z Hz; right; auto|right; left; auto].
+Qed.
+
+Lemma new_interface_shape fl name node_id ns ty pure s s2 p :
+  closed (sg s) ->
+  new_interface fl name node_id (Some ns) (Some ty) pure s = (s2, Ok p) ->
+  has_node (sg s) p = false /\
+  sg s2 = mkGraph (gnodes (sg s) ++ [mkNode p cCP name ty 0]) (gedges (sg s) ++ [mkEdge ns p rConnects]) /\
+  incl (sfresh s2) (sfresh s) /\ (node_id = Some p \/ In p (sfresh s)).
+Proof.
+  intros Hcl H. unfold new_interface in H.
+  apply bind_ok in H as (s' & u1 & H1 & H). apply guard_ok in H1 as [-> _].
+  apply bind_ok in H as (s0 & id & H1 & H). apply id_or_draw_ok in H1 as (G0 & F0 & I0).
+  apply bind_ok in H as (s' & u2 & H1 & H). apply guard_ok in H1 as [-> _].
+  apply bind_ok in H as (s' & u3 & H1 & H). apply opt_raise_ok in H1 as ->.
+  apply bind_ok in H as (s' & u4 & H1 & H). apply mutate_ok in H1 as (g1 & Hg1 & ->).
+  apply add_node_result in Hg1 as [Hnew ->]. simpl nid in Hnew.
+  apply bind_ok in H as (s' & u5 & H1 & H). apply mutate_ok in H1 as (g2 & Hg2 & ->). simpl in Hg2.
+  apply ret_ok in H as [-> <-]. simpl.
+  rewrite G0 in *.
+  assert (Hunt : untouched p (gedges (sg s))).
+  { apply closed_untouched; auto. apply has_node_false_In; auto. }
+  apply add_edge_result in Hg2; [|simpl; apply same_pair_untouched; exact Hunt]. simpl in Hg2.
+  repeat split; auto.
+Qed.
+
+Lemma parent_found_In g x : In x (ids g) -> NoDup (ids g) -> exists n, find_node g x = Ok n.
+Proof. intros H Hnd. destruct (In_ids_find g x Hnd H) as [n [Hn _]]; eauto. Qed.
+
+(* ---------------------------------------------------------------- a failing iteration leaves at most one orphan port *)
+Lemma step_fail_shape fl g nsn cs ty i s s1 e :
+  closed g -> good g nsn cs -> sg s = ext g nsn cs ->
+  (guardrails ty i ;;; connect_interface fl (nid nsn) i) s = (s1, Err e) ->
+  sg s1 = ext g nsn cs \/
+  exists o, sg s1 = mkGraph (gnodes (ext g nsn cs) ++ [o]) (gedges (ext g nsn cs) ++ [mkEdge (nid nsn) (nid o) rConnects])
+            /\ ~ In (nid o) (ids (ext g nsn cs)) /\ ncls o = cCP.
+Proof.
+  intros Hcl G Hsg H.
+  set (E := ext g nsn cs) in *.
+  assert (HclE : closed E) by (apply ext_closed; auto).
+  assert (HndE : NoDup (ids E)) by (unfold E; rewrite ids_ext; apply (gd_nodup _ _ _ G)).
+  assert (Hns_in : In (nid nsn) (ids E)).
+  { unfold E. rewrite ids_ext. apply in_app_iff. right. left. reflexivity. }
+  apply bind_err_cases in H as [H|(s' & u & H1 & H)].
+  { left. rewrite <- Hsg. exact (no_mut_guardrails _ _ _ _ _ H). }
+  apply guardrails_ok in H1 as ->.
+  unfold connect_interface in H.
+  apply bind_err_cases in H as [H|(s' & nsty & H1 & H)]; [left; rewrite <- Hsg; exact (no_mut_ask _ _ _ _ H)|].
+  apply ask_ok in H1 as [-> _].
+  apply bind_err_cases in H as [H|(s' & u1 & H1 & H)];
+    [left; rewrite <- Hsg; exact (no_mut_guardrails _ _ _ _ _ H)|].
+  apply guardrails_ok in H1 as ->.
+  apply bind_err_cases in H as [H|(s' & owner & H1 & H)]; [left; rewrite <- Hsg; exact (no_mut_ask _ _ _ _ H)|].
+  apply ask_ok in H1 as [-> _].
+  destruct owner as [on|]; [|left; rewrite <- Hsg; exact (no_mut_raise _ _ _ _ H)].
+  apply bind_err_cases in H as [H|(s' & oname & H1 & H)]; [left; rewrite <- Hsg; exact (no_mut_ask _ _ _ _ H)|].
+  apply ask_ok in H1 as [-> _].
+  apply bind_err_cases in H as [H|(s' & peers & H1 & H)]; [left; rewrite <- Hsg; exact (no_mut_ask _ _ _ _ H)|].
+  apply ask_ok in H1 as [-> _].
+  apply bind_err_cases in H as [H|(s' & u2 & H1 & H)]; [left; rewrite <- Hsg; exact (no_mut_guard _ _ _ _ _ H)|].
+  apply guard_ok in H1 as [-> _].
+  set (pname := oname ++ dash ++ ih_name i) in *.
+  apply bind_err_cases in H as [H|(s2 & p & H1 & H)].
+  { left. rewrite <- Hsg.
+    refine (new_interface_atomic fl pname None (nid nsn) (Some tServicePort) None s s1 e _ H).
+    unfold parent_found. rewrite Hsg. apply parent_found_In; auto. }
+  right.
+  assert (HclS : closed (sg s)) by (rewrite Hsg; exact HclE).
+  destruct (new_interface_shape _ _ _ _ _ _ _ _ _ HclS H1) as (Hnew & Hs2 & _ & _).
+  rewrite Hsg in Hnew, Hs2.
+  exists (mkNode p cCP pname tServicePort 0). simpl nid.
+  split; [|split; [apply has_node_false_In; exact Hnew|reflexivity]].
+  rewrite <- Hs2.
+  apply bind_err_cases in H as [H|(s' & ity & H3 & H)]; [exact (no_mut_ask _ _ _ _ H)|].
+  apply ask_ok in H3 as [-> _].
+  apply bind_err_cases in H as [H|(s' & l0 & H3 & H)].
+  - exact (new_link_atomic fl _ None _ _ None s2 s1 e I H).
+  - unfold ret in H. discriminate.
 Qed.
